@@ -195,6 +195,8 @@ func cowRunImpl(c corr.Case) []string {
 	direct := map[int]bool{}
 	pages := map[int][]string{}
 	handlePath := map[int]string{}
+	muts := 0                  // number of lines so far that may have changed some directory's entries
+	firstPage := map[int]int{} // handle -> value of muts at its first page
 	out := make([]string, 0, len(c.Lines))
 	for _, line := range c.Lines {
 		t := strings.Fields(line)
@@ -208,7 +210,11 @@ func cowRunImpl(c corr.Case) []string {
 				r = NewRunner(st.cow)
 				r.Alt = map[string]afero.Fs{"b": st.base, "l": st.layer}
 				direct, pages, handlePath = map[int]bool{}, map[int][]string{}, map[int]string{}
+				muts, firstPage = 0, map[int]int{}
 				return "case"
+			}
+			if op := strings.TrimPrefix(strings.TrimPrefix(t[0], "b."), "l."); !strings.HasPrefix(op, "h.") && op != "stat" && op != "open" && op != "snapshot" {
+				muts++
 			}
 			switch t[0] {
 			case "snapshot":
@@ -285,6 +291,9 @@ func cowRunImpl(c corr.Case) []string {
 			if t[0] == "h.readdir" || t[0] == "h.readdirnames" {
 				hi := atoi(t[1])
 				ns := pageNames(res)
+				if _, seen := firstPage[hi]; !seen {
+					firstPage[hi] = muts
+				}
 				pages[hi] = append(pages[hi], ns...)
 				n := atoi(t[2])
 				if n > 0 && len(ns) > n {
@@ -298,7 +307,8 @@ func cowRunImpl(c corr.Case) []string {
 					}
 					seen[x] = true
 				}
-				if e, ok := want[handlePath[hi]]; ok && e.dir && (n <= 0 || strings.HasSuffix(res, "err:eof")) {
+				// (a directory changed between two pages of one handle is outside what the pages can promise)
+				if e, ok := want[handlePath[hi]]; ok && e.dir && firstPage[hi] == muts && (n <= 0 || strings.HasSuffix(res, "err:eof")) {
 					var got []string
 					for _, x := range pages[hi] {
 						got = append(got, string(corr.UnHex(strings.Split(x, "/")[0])))
